@@ -223,9 +223,10 @@ def run(tier):
     mods = package_modules()
     cells = default_cells(mods)
     res.count(len(cells))
-    if sorted(cells) != MODELLED_CELLS:
-        res.broke('correspondence:Globals.cells', 'mutable default cells in the package %r differ from the modelled list %r' % (
-            sorted(set(cells) ^ set(MODELLED_CELLS)), MODELLED_CELLS))
+    # the model's premise is that there is no cross-run cell BEYOND the modelled ones; a cell that disappeared is harmless
+    if not set(cells) <= set(MODELLED_CELLS):
+        res.broke('correspondence:Globals.cells', 'mutable default cells in the package that are not modelled: %r (modelled: %r)' % (
+            sorted(set(cells) - set(MODELLED_CELLS)), MODELLED_CELLS))
     muts = ast_mutations(mods)
     if muts:
         res.broke('correspondence:Globals.ops', 'in-place mutation of a default-bound name or alias: %r' % muts[:5])
